@@ -174,4 +174,5 @@ def run_config(cfg):
         return p
     return common.explore(cfg, harness, twin=tw, on_leaf=on_leaf, witness_fn=witness if cfg["model"] != "uns" else None,
                           witness_stride=cfg.get("wstride", 0), deadline_s=cfg.get("deadline_s", 900),
-                          seed=cfg.get("seed", 0), solver_timeout_ms=cfg.get("timeout_ms", 30000))
+                          seed=cfg.get("seed", 0), solver_timeout_ms=cfg.get("timeout_ms", 30000),
+                          logic="fresh" if cfg.get("fresh") else None)
